@@ -611,6 +611,67 @@ def gen_cases(g: Gen, tier: str) -> list[dict[str, Any]]:
     def add(fam: str, name: str, left: Any, args: tuple, lam: tuple | None = None) -> None:
         cases.append({"fam": fam, "name": name, "left": left, "args": args, "lambda": lam})
 
+    # ---------------- corpus: boundary cases of each mechanism, run first
+    big, text = 10 ** 20 + 7, "not interned é"
+    hs = [{"k": big, "n": "a", "id": 0}, {"k": None, "n": "B", "id": 1}, {"n": "b", "id": 2},
+          {"k": 0, "n": "A", "id": 3}, {"k": fresh(big), "n": "a", "id": 4}, {"k": text, "n": "C", "id": 5},
+          {"k": False, "n": "c", "id": 6}, {"k": "", "n": "", "id": 7}]
+    for name in ("where", "reject", "find", "find_index", "has"):
+        for v in (fresh(big), fresh(text), 0, False, "", None):
+            add("seq", name, hs, ("k", v))
+            add("seq", name, hs, (), ("k", v is not None, v))
+        add("seq", name, hs, ("k",))
+    for name in ("sort", "sort_natural", "sort_numeric", "uniq", "compact", "map", "sum"):
+        add("seq", name, hs, ("n",))
+        add("seq", name, hs, (), ("n", False, None))
+    add("seq", "sort_natural", ["b", "A", "a", "B", "Ab", "aB", "ab", "AB", "Zz", "zz", "10", "9"], ())
+    add("seq", "sort_natural", ["b", 10, "A", 9, "a", None, True], ())
+    add("seq", "sort_numeric", ["z10", "z9", "x-2y", "a1b22", "a1b3", 5, "5", -3, "none", True, 2.5], ())
+    add("seq", "sort", [3, True, 1, 2.0, 2, False, 1.0, 0], ())
+    add("seq", "sort", ["b", "B", "a", "ab", "", MAX_CH, "日本", "a"], ())
+    add("seq", "uniq", [1, "a", True, 1.0, "a", None, 0, False, None, "A", [1], 2], ())
+    add("seq", "compact", [0, "", False, None, [], {}, "a", None, [None]], ())
+    for depth in (4, 5, 6, 7):
+        nest: Any = [1, 2]
+        for _ in range(depth):
+            nest = [0, nest]
+        for name in ("reverse", "uniq", "compact", "sort", "join", "sum", "concat"):
+            add("seq", name, nest, ([3, [4]],) if name == "concat" else ())
+    seq8 = [10, 11, 12, 13, 14, 15, 16, 17]
+    for left in (seq8, "abcdefgh"):
+        for st in (-9, -8, -7, -1, 0, 1, 7, 8, 9):
+            for ln in (-1, 0, 1, 7, 8, 9, -st, -st - 1, -st + 1):
+                add("seq", "slice", left, (st, ln))
+    for s_ in ("a,b,", ",a,,b,,", ",", ",,", "a", "", "aaa", "aaaa", "abab"):
+        for sep in (",", ",,", "a", "aa", "ab"):
+            add("seq", "split", s_, (sep,))
+    for s_ in ("hello", "", "a", "日本語のテキスト"):
+        for n_ in range(-1, 8):
+            add("str", "truncate", s_, (n_,))
+            add("str", "truncate", s_, (n_, "--"))
+    for s_ in ("one two three", " one  two ", "one", ""):
+        for n_ in range(-1, 5):
+            add("str", "truncatewords", s_, (n_,))
+    for s_ in ("abcabc", "aaa", "abc", "xabx", "a"):
+        for pat in ("a", "abc", "c", "bc", "aa", "x", "", "abcabc"):
+            for name in ("remove", "remove_first", "remove_last"):
+                add("str", name, s_, (pat,))
+            for name in ("replace", "replace_first", "replace_last"):
+                add("str", name, s_, (pat, "Z"))
+    for s_ in ("a+b c%2Bd", "+", "%2b%2B", "a%20b+c", "100%+"):
+        add("str", "url_decode", s_, ())
+        add("str", "url_encode", s_, ())
+    for a_ in (-7, 7, -8, 8, 0, 1, -1, 10 ** 30 + 1, -(10 ** 30) - 1):
+        for b_ in (2, -2, 3, -3, 1, -1, 0, 10 ** 15, -(10 ** 15)):
+            for name in ("modulo", "divided_by", "plus", "minus", "times", "at_least", "at_most"):
+                add("num", name, a_, (b_,))
+    for a_ in (-7.5, 7.5, -7.0, 2.5, 3.5, -0.5, 0.5, 1.5, -2.5, 0.1, 1e15, 123456789.125):
+        for name in ("abs", "ceil", "floor", "round"):
+            add("num", name, a_, ())
+        for b_ in (2, -2, 0.5, -1.5):
+            for name in ("modulo", "plus", "minus", "times", "at_least", "at_most"):
+                add("num", name, a_, (b_,))
+
     # ---------------- sequence filters
     def key_arg() -> Any:
         return g.pick(["k", "k", "k", "n", "t", "zz", "size", "", 0, 1, None])
@@ -906,6 +967,13 @@ class Laws:
                     self.expect("sort-order-independent", [repr(v) for v in rev[1]] == [repr(v) for v in out] or
                                 len({type(v) for v in xs}) > 1,
                                 "sort of the reversed input differs (homogeneous scalars)", **rp, out=out)
+                if name == "sort_natural" and all(isinstance(v, (str, int)) or v is None for v in
+                                                  ([i.get(kargs[0], MAX_CH) if isinstance(i, dict) else MAX_CH
+                                                    for i in out] if kargs else out)):
+                    ks = [str(i.get(kargs[0], MAX_CH) if isinstance(i, dict) else MAX_CH).lower() for i in out] \
+                        if kargs else [str(v).lower() for v in out]
+                    self.expect("sort_natural-ordered", all(a <= b for a, b in zip(ks, ks[1:])),
+                                "sort_natural output is not ascending in the lower-cased text", **rp, out=out)
                 if name == "sort" and len(out) >= 2:
                     ks = [(i.get(kargs[0], MAX_CH) if isinstance(i, dict) else MAX_CH) for i in out] if kargs else out
                     try:
